@@ -77,7 +77,8 @@ func TestPropDistSession(t *testing.T) {
 		echo := rapid.Bool().Draw(rt, "echo")
 		f := pools.DistFactory(g.CIDR, g.Unit, false, 0, echo, g.Class, nil)
 		ops := pools.GenOps(kinds, []int{5, 4, 2, 5, 1, 4}, len(subs), 1, 40).Draw(rt, "ops")
-		record(f, runHistory(rt, f, ops, runOpt{checkStats: true}))
+		honour := rapid.Bool().Draw(rt, "storeHonoursContext")
+		record(f, runHistory(rt, f, ops, runOpt{checkStats: true, ctx: true, honourCtx: honour}))
 	})
 }
 
@@ -92,11 +93,12 @@ func TestPropDistLease(t *testing.T) {
 		echo := rapid.Bool().Draw(rt, "echo")
 		ops := pools.GenOps(kinds, []int{4, 2, 5, 5, 3, 4, 1}, len(subs), 1, 40).Draw(rt, "ops")
 		cs := true
+		honour := rapid.Bool().Draw(rt, "storeHonoursContext")
 		var res result
 		var f pools.Factory
 		msg := inBubble(t, func(ft fataler) {
 			f = pools.DistFactory(cidr, 32, true, grace, echo, "lease", synctest.Wait)
-			res = runHistory(ft, f, ops, runOpt{checkStats: cs})
+			res = runHistory(ft, f, ops, runOpt{checkStats: cs, ctx: true, honourCtx: honour})
 		})
 		if msg != "" {
 			rt.Fatalf("%s", msg)
@@ -115,7 +117,7 @@ func TestPropLocalAlloc(t *testing.T) {
 		}
 		// OpAllocAlt: LocalAllocator.Allocate (no MAC) / PoolAllocator.AllocateWithOptions with DUID+IAID (DHCPv6 server)
 		ops := pools.GenOps(altKinds, []int{3, 3, 3}, len(subs), 1, 40).Draw(rt, "ops")
-		record(f, runHistory(rt, f, ops, runOpt{checkStats: true}))
+		record(f, runHistory(rt, f, ops, runOpt{checkStats: true, ctx: true}))
 	})
 }
 
